@@ -468,6 +468,13 @@ BOUNDED = {
             dict(family="listidx", obligation="access/bounded-standin/listidx.list_indexed_access",
                  known_cases="contracts/known_listidx_cases.txt",
                  what="list_indexed_access end to end through the public SemTypeContext::indexed_access (the per-atom member type is proved in unit U10, termination and panic-freedom of the walk over the diagram in U9, the walk's RESULT is not under contract): T[i], T[i | j], T[number except i] and T[number except i | j] for tuple types with a prefix up to length 3 over {string, number, boolean} and an optional rest, i, j in 0..=4, 3600 questions, against the item types at the selected indices"),
+            dict(family="mapidx", obligation="access/bounded-standin/mapidx.mapping_indexed_access",
+                 known_cases="contracts/known_mapidx_cases.txt",
+                 what="mapping_indexed_access (object property access, not under contract: it iterates BTreeMaps through iterator adapters) through the public SemTypeContext::indexed_access: object atoms with declared keys among {a: string, b: number} and optionally a string index signature, indexed by every non-empty key set over {a, b, c}, by `string`, and by `string except` each of those sets, 180 questions, against the union of the types of the selected declared keys and, when an undeclared key is selected, the signature's value type"),
+            dict(family="front", args_quick=["--idx"], args_thorough=["--idx"],
+                 obligation="frontend/bounded-standin/idx.printed_type",
+                 known_cases="contracts/known_idx_cases.txt",
+                 what="indexed access `T[K]` at SOURCE level (both the frontend's syntactic shortcut and the semantic route): 115 programs `type X = T[K]` over object types (declared a: string / b: number, with and without a string index signature, Record<string, number>) and tuple / array types (prefix up to 2, optional rest), K a union of literal keys, `string` or `number`, only programs TypeScript accepts; the type handed to code generation for X is read with an independent evaluator of Runtype on a dozen values and must contain exactly the values of the member types TypeScript selects"),
             dict(family="schema2", obligation="to_schema/bounded-standin/schema2.convert_to_schema",
                  known_cases="contracts/known_schema2_cases.txt",
                  what="the ASSUMED recursive entry point convert_to_schema and everything around the functions under contract (semtype_to_runtypes, the memo, to_sem_type reading the result back): every `X op Y` (union, intersection, difference) over 21 small source types (literal sets allowed/excluded over numbers and strings, basic tags, four object atoms, unknown, two differences), 1323 round trips; literal values compared by an independent membership function, object parts by the engine's is_same_type; then the frontend's next step remove_nots_of_intersections_and_empty_of_union is compared with an executable reading of its own comment (empty clauses dropped, Not<> members of the others dropped; emptiness decided by the engine), and its result must contain no Not<> and accept at least the values of the computed type")],
